@@ -289,34 +289,31 @@ Val Executor::castop(State &s, unsigned opc, const Val &a0, Type *from, Type *to
     }
     case Instruction::FPToUI: case Instruction::FPToSI: {
         bool sg = opc == Instruction::FPToSI;
-        // value must be in range after truncation toward zero, else UB (float-cast-overflow)
+        // LLVM semantics: an out-of-range conversion yields poison, not immediate UB (the optimiser speculates such casts under
+        // selects).  Poison is modelled as a fresh arbitrary value; a failure whose condition mentions it is annotated as UB.
         double lim = ldexp(1.0, sg ? tb - 1 : tb);
+        auto poison = [&]() { static unsigned pk = 0; std::string nm = "poison.fpcast#" + std::to_string(pk++); poisonUsed++; return mkSymInt(ZC->bv_const(nm.c_str(), tb), tb); };
         if (a.k == Val::FP) {
             double x = fb == 64 ? asF64(a) : (double)asF32(a);
             bool bad = std::isnan(x) || (sg ? !(x > -lim - 1.0 && x < lim) : !(x > -1.0 && x < lim));
             if (sg && tb == 64) bad = std::isnan(x) || !(x >= -lim && x < lim);
-            if (bad) { fail(s, "ub", "float-to-int conversion out of range (float-cast-overflow)", at, nullptr); ok = false; return Val(); }
+            if (bad) return poison();
             if (sg) return mkInt(tb, (uint64_t)(int64_t)x);
             return mkInt(tb, (uint64_t)x);
         }
         z3::expr x = toFPx(a);
-        z3::expr lo = fpConstBits(0, fb), hi = fpConstBits(0, fb);
         z3::expr inRange(*ZC);
         auto C = [&](double d) { Val t = fb == 64 ? mkF64(d) : mkF32((float)d); return fpConstBits(t.lo, fb); };
         if (sg) {
             if (tb == 64 || fb == 32) inRange = wrap(Z3_mk_fpa_leq(*ZC, C(-lim), x)) && wrap(Z3_mk_fpa_lt(*ZC, x, C(lim)));
             else inRange = wrap(Z3_mk_fpa_lt(*ZC, C(-lim - 1.0), x)) && wrap(Z3_mk_fpa_lt(*ZC, x, C(lim)));
         } else inRange = wrap(Z3_mk_fpa_lt(*ZC, C(-1.0), x)) && wrap(Z3_mk_fpa_lt(*ZC, x, C(lim)));
-        bool unk = false;
-        if (mayBeTrue(s, !inRange, unk)) {
-            z3::expr bad = !inRange;
-            fail(s, "ub", "float-to-int conversion out of range (float-cast-overflow)", at, &bad);
-            bool u2 = false;
-            if (!mayBeTrue(s, inRange, u2)) { ok = false; return Val(); }
-        }
-        addPC(s, inRange);
         Z3_ast r = sg ? Z3_mk_fpa_to_sbv(*ZC, rtz(), x, tb) : Z3_mk_fpa_to_ubv(*ZC, rtz(), x, tb);
-        return symFromBV(wrap(r), tb);
+        z3::expr conv = wrap(r);
+        bool unk = false;
+        if (!mayBeTrue(s, !inRange, unk)) return symFromBV(conv, tb);
+        Val p = poison();
+        return symFromBV(z3::ite(inRange, conv, p.e), tb);
     }
     default: throw EngineError("cast: unsupported opcode");
     }
